@@ -5,7 +5,7 @@
    is the nil error on both sides. *)
 Require Import Calc.Sem.
 Require Import Calc.Base Calc.Bytecode Calc.BytecodeProofs Calc.Value Calc.FloatText Calc.Ast Calc.Compile Calc.VM
-        Calc.MemProofs Calc.StepErr Calc.StepCode Calc.ExprSem Calc.ExprVM Calc.ExprCorrect Calc.ExprTop.
+        Calc.MemProofs Calc.StepErr Calc.StepCode Calc.FloatComm Calc.ExprSem Calc.ExprVM Calc.ExprCorrect Calc.ExprTop.
 Require Import Lia.
 Open Scope Z_scope.
 
@@ -399,11 +399,18 @@ Proof. reflexivity. Qed.
 Lemma den_inc_right G g : den G (NBin "+" (NInt 1) (NName g)) = Arith ADD (VInt 1) (gval G g).
 Proof. reflexivity. Qed.
 
-(* 1 + x and x + 1 are the same computation unless x is a float (for floats it is the
-   commutativity of IEEE addition, which this development does not prove) *)
-Lemma arith_add_1_comm x : (forall f, x <> VFloat f) -> Arith ADD (VInt 1) x = Arith ADD x (VInt 1).
+(* 1 + x and x + 1 are the same computation (for floats: IEEE addition is commutative, FloatComm.v) *)
+Lemma arith_add_1_comm x : Arith ADD (VInt 1) x = Arith ADD x (VInt 1).
 Proof.
-  intros Hf. destruct x; try reflexivity.
+  destruct x; try reflexivity.
   - cbn. unfold int_arith. cbn. rewrite Z.add_comm. reflexivity.
-  - exfalso. apply (Hf f). reflexivity.
+  - cbn. unfold float_arith. cbn. rewrite float_add_comm. reflexivity.
+Qed.
+
+(* what an increment of g means, in either form *)
+Lemma den_inc g e G : is_inc g e = true -> den G e = Arith ADD (gval G g) (VInt 1).
+Proof.
+  intros H. destruct (is_inc_forms g e H) as [->| ->].
+  - apply den_inc_left.
+  - rewrite den_inc_right. apply arith_add_1_comm.
 Qed.
